@@ -86,7 +86,7 @@ def run(text, scratch, name, built=None, timeout=600, extra=(), multiple_errors=
     return R
 
 _COMPILE_PAT = re.compile(r"(cannot find|mismatched types|not supported|unsupported|expected|The verifier does not yet support|no method named|unresolved|cannot use|is not allowed|must be|mode|trait bound)", re.I)
-_VERIF_PAT = re.compile(r"(Resource limit|postcondition not satisfied|precondition not satisfied|assertion failed|invariant not satisfied|possible arithmetic|possible division|decreases not satisfied|could not prove termination|index out of bounds|loop invariant|recommendation not met|failed precondition|possible bit shift|possible overflow|might panic|unreachable)", re.I)
+_VERIF_PAT = re.compile(r"(Resource limit|unable to prove post-condition of closure|unable to prove pre-condition of closure|postcondition not satisfied|precondition not satisfied|assertion failed|invariant not satisfied|possible arithmetic|possible division|decreases not satisfied|could not prove termination|index out of bounds|loop invariant|recommendation not met|failed precondition|possible bit shift|possible overflow|might panic|unreachable)", re.I)
 
 def _is_compile_msg(msg):
     if _VERIF_PAT.search(msg): return False
